@@ -243,6 +243,12 @@ fn corrupt(cx: &mut Cx, holder: NodeId, key: Arc<KeyMat>, issued: Arc<Cred>, sin
     { let mut d = (*issued).clone(); d.v += nmod; send(cx, d, "sig_field:v+N".into()); }
     { let mut d = (*issued).clone(); d.v -= nmod; send(cx, d, "sig_field:v-N".into()); }
     { let mut d = (*issued).clone(); d.s += Integer::from(&d.e); send(cx, d, "sig_field:s+e".into()); }
+    // computable from the signature and N alone: (-e, s, v^-1 mod N) satisfies the same equation
+    // (v^-1)^(-e) = v^e; an exponent test that looks at the bit length only lets the sign through
+    if let Ok(vinv) = issued.v.clone().invert(nmod) { let mut d = (*issued).clone(); d.e = Integer::from(-&d.e); d.v = vinv; send(cx, d, "sig_field:(-e,1/v)".into()); }
+    // the whole vector rotated by one position (with an attribute equal to 0 in it the product
+    // of a verifier that skips zeros before indexing its bases is the same)
+    if n > 1 && issued.msgs.iter().any(|m| *m != issued.msgs[0]) { let mut d = (*issued).clone(); d.msgs.rotate_left(1); send(cx, d, "attr_rotate_left".into()); let mut d = (*issued).clone(); d.msgs.rotate_right(1); send(cx, d, "attr_rotate_right".into()); }
     // an insider's edit (needs the factorisation): e plus the order of the group of squares,
     // p'q' = (p-1)(q-1)/4.  v^(e + p'q') = v^e, the same equation with an exponent of ~1022
     // bits instead of le = 258: only the length test on e refuses it, in BOTH entry points
